@@ -66,6 +66,43 @@ type contCand struct {
 	im   *Image
 	f    Fault
 	minP int
+	// redoN > 0: the zero-gap shape. After the recovery exactly the first redoN
+	// lost records are handed over again (byte-identical frames at the same
+	// offsets), then Sync, Close, reopen: the stale frames behind them, which
+	// still fit the crc chain, must not come back.
+	redoN int
+}
+
+// gapFault builds, for a region that starts at a frame boundary, the image
+// "the first >= 4 KiB of the unsynced write are missing, the rest reached
+// disk" and says how many of the lost records cover the gap (at least one
+// complete stale frame must follow them).
+func gapFault(rg region) (Fault, int, bool) {
+	if rg.Drop {
+		return Fault{}, 0, false
+	}
+	var fr []Frame
+	for _, f := range rg.Frames {
+		if f.Off >= rg.Lo && f.End <= rg.Hi {
+			fr = append(fr, f)
+		}
+	}
+	if len(fr) < 2 || fr[0].Off != rg.Lo {
+		return Fault{}, 0, false
+	}
+	gapEnd := (rg.Lo + 4096 + sector - 1) / sector * sector
+	for j := 1; j < len(fr); j++ {
+		if fr[j-1].End >= gapEnd {
+			// only logical records may be re-issued 1:1 (no segment head in between)
+			for _, f := range fr[:j] {
+				if f.Type != 2 && f.Type != 3 && f.Type != 5 {
+					return Fault{}, 0, false
+				}
+			}
+			return Fault{Kind: "zero-gap", File: rg.File, Off: rg.Lo, Gap: gapEnd - rg.Lo, Size: rg.Size}, j, true
+		}
+	}
+	return Fault{}, 0, false
 }
 
 func (h *hctx) stop() bool { return h.viol >= 3 || h.e.c.Violations() >= 30 }
@@ -697,6 +734,17 @@ func (h *hctx) evalImage(w imgWork) {
 			}
 		}
 	}
+	// zero gap of >= 4 KiB at the start of the unsynced write, later sectors present
+	if w.lastOfOp && h.depth == 0 {
+		for _, rg := range w.regions {
+			if f, j, ok := gapFault(rg); ok && !h.stop() {
+				o, _ := h.check(r, im, f, im.PrevDurMin, false, false)
+				if o.Class == "ok" || o.Class == "repaired" {
+					h.conts = append(h.conts, contCand{r: r, hid: w.hid, im: im, f: f, minP: im.PrevDurMin, redoN: j})
+				}
+			}
+		}
+	}
 	if w.flips {
 		h.flipImage(r, im, mode)
 	}
@@ -797,10 +845,18 @@ func selectConts(all []contCand, max int) []contCand {
 		return a.f.String() < b.f.String()
 	})
 	var out []contCand
-	n, nclean, cur := 0, 0, -1
+	n, nclean, ngap, cur := 0, 0, 0, -1
 	for _, c := range all {
 		if c.hid != cur {
-			cur, n, nclean = c.hid, 0, 0
+			cur, n, nclean, ngap = c.hid, 0, 0, 0
+		}
+		if c.redoN > 0 {
+			// the identical-re-append shape has its own small allowance
+			if ngap < 6 {
+				ngap++
+				out = append(out, c)
+			}
+			continue
 		}
 		if n >= max {
 			continue
@@ -839,6 +895,25 @@ func (h *hctx) continuation(cc contCand, ci int) {
 	h.st.add("continuations", 1)
 	h.st.add("continuations."+cc.f.Kind, 1)
 	lost := r.log.Recs[len(nr.log.Recs):cc.im.NRecs]
+	if cc.redoN > 0 {
+		if len(lost) <= cc.redoN {
+			h.st.add("continuations_skipped", 1)
+			return
+		}
+		for _, op := range redoOps(lost[:cc.redoN]) {
+			nr.exec(op)
+		}
+		nr.exec(Op{K: "sync"})
+		nr.exec(Op{K: "reopen"})
+		h.st.add("continuations_identical_reappend_after_zero_gap", 1)
+		h.depth++
+		h.liveReport(nr)
+		for _, w := range prepare(nr, h.id, "cont", h.depth, h.label, h.scenario, h.rng) {
+			h.evalImage(w)
+		}
+		h.depth--
+		return
+	}
 	seed := int64(h.id)*1000003 + int64(ci)*7919 + 500000
 	if len(lost) > 0 && h.rng.Intn(2) == 0 {
 		// hand over exactly the lost records again (a raft leader re-sends the same entries)
